@@ -27,7 +27,29 @@ func lookupExternal(fn *ssa.Function, name string) externalFn {
 	if e, ok := externals[name]; ok {
 		return e
 	}
+	if strings.HasPrefix(name, "unique.Make[") {
+		return extUniqueMake
+	}
 	return nil
+}
+
+// unique.Make: one canonical pointer per distinct (concrete) value.
+func extUniqueMake(fr *frame, args []value) value {
+	if containsSym(args[0]) {
+		panic(unsupported("unique.Make of a symbolic value"))
+	}
+	x := fr.i.x
+	if x.uniques == nil {
+		x.uniques = map[interface{}]*value{}
+	}
+	k := concreteKey(args[0])
+	p, ok := x.uniques[k]
+	if !ok {
+		cell := args[0]
+		p = &cell
+		x.uniques[k] = p
+	}
+	return structure{p}
 }
 
 func init() {
